@@ -1102,3 +1102,48 @@ Proof.
     destruct Hf as (Ht' & _). apply written_stamped in Hx. destruct Hx as (Hs & Hw'). cbn in Hw'.
     rewrite Ht in Ht'. subst t'. destruct (stamped_inj _ _ _ _ _ _ _ _ Hin Hs) as (_ & <-). congruence.
 Qed.
+
+(* ---------- every projector, when the re-apply sees what the command saw ---------- *)
+
+Lemma consistent_weaken np dk (P Q : N -> Prop) s :
+  (forall j, Q j -> P j) -> consistent np dk P s -> consistent np dk Q s.
+Proof.
+  intros HPQ (H1 & H2 & H3 & H4 & H5). repeat split; try assumption.
+  intros j Hj Hq. apply H5; [exact Hj | apply HPQ; exact Hq].
+Qed.
+
+Lemma consistent_all k np dk s :
+  k_sees k = true -> consistent np dk (good (k_sees k) dk) s -> consistent np dk all_projectors s.
+Proof. intros Hs. apply consistent_weaken. intros j _. left. exact Hs. Qed.
+
+Theorem recovery_restores_consistency_all_proved k ords np dk steps st outs :
+  k_early k = true -> k_sees k = true -> ords_ok np dk ords ->
+  reapply_unconditional ->
+  run k ords 1 steps state0 = (st, outs) ->
+  forall ord, ord_ok np dk ord ->
+  exists s' l' p, recover k ord [] (sto st) [] = (s', l', Some p)
+    /\ plog s' = plog (sto st) /\ consistent np dk all_projectors s'.
+Proof.
+  intros He Hs Hords Hu H ord Hord.
+  destruct (recovery_restores_consistency_proved k ords np dk steps st outs He Hords Hu H ord Hord) as (s' & l' & p & E & P & C).
+  exists s', l', p. split; [exact E|]. split; [exact P | apply (consistent_all k); assumption].
+Qed.
+
+Theorem serving_state_consistent_all_proved k ords np dk steps st outs :
+  k_early k = true -> k_sees k = true -> ords_ok np dk ords ->
+  run k ords 1 steps state0 = (st, outs) -> mem st <> None -> consistent np dk all_projectors (sto st).
+Proof.
+  intros He Hs Hords H Hm. apply (consistent_all k); [exact Hs|].
+  eapply serving_state_consistent_proved; eassumption.
+Qed.
+
+Theorem clean_command_succeeds_all_proved k ords np dk steps c st outs :
+  k_early k = true -> k_sees k = true -> ords_ok np dk ords ->
+  reapply_unconditional -> insert_only c = true ->
+  run k ords 1 (steps ++ [SCmd c []]) state0 = (st, outs) ->
+  (exists w ids, option_map o_reply (last_opt outs) = Some (ROk w ids)) /\ consistent np dk all_projectors (sto st).
+Proof.
+  intros He Hs Hords Hu Hins H.
+  destruct (clean_command_succeeds_proved k ords np dk steps c st outs He Hords Hu Hins H) as (Hr & Hc).
+  split; [exact Hr | apply (consistent_all k); assumption].
+Qed.
